@@ -181,6 +181,14 @@ RACES = [
     dict(modules=[dict(interval=8, slow=24, dopoll=[(1, 'ok')], reads={'a': [(0, 'ok')]}),
                   dict(interval=8, slow=24, dopoll=[(1, 'ok')], reads={}, readable=True)],
          env=[(('after', 2), 'interval', 1, 1), (('after', 4), 'fast', 0, (True, 2))], horizon=70),
+    # fast polling switched off by one thread while another one changes the poll interval (line-level interleaving
+    # of the two calls): whatever the order, afterwards the interval in use is the new poll interval
+    dict(modules=[dict(interval=16, slow=40, dopoll=[(1, 'ok')], reads={}, readable=True)],
+         env=[(1, 'fast', 0, (True, 2)), (('after', 3), 'racepair', 0, (('fast', (False, 2)), ('interval', 4)))],
+         horizon=90),
+    dict(modules=[dict(interval=4, slow=40, dopoll=[(1, 'ok')], reads={}, readable=True)],
+         env=[(1, 'fast', 0, (True, 2)), (('after', 3), 'racepair', 0, (('interval', 16), ('fast', (False, 2))))],
+         horizon=120),
 ]
 
 
@@ -190,13 +198,14 @@ def _race(args):
     from ..pollworld import run_scenario
     sc = RACES[ri]
     out = []
-    if mode == 'dfs':
+    if mode in ('dfs', 'dfs1'):
         class Run:
             def __init__(self, r):
                 self.choices = r['raw_choices']
                 self.res = r
 
-        for s in ds.explore(lambda st: Run(run_scenario(sc, st, race=True)), max_preemptions=2, max_runs=nruns, max_depth=400):
+        for s in ds.explore(lambda st: Run(run_scenario(sc, st, race=True)), max_preemptions=1 if mode == 'dfs1' else 2, max_runs=nruns,
+                            max_depth=400):
             out.append((s.res['choices'], alpha(sc, s.res)))
     else:
         for k in range(nruns):
@@ -229,6 +238,10 @@ def run(chk):
     for ri in range(len(RACES)):
         jobs.append((ri, 'dfs', chk.seed, 120 if quick else 3000))
         jobs.append((ri, 'rnd', chk.seed + 2, 80 if quick else 2000))
+        if any(e[1] == 'racepair' for e in RACES[ri]['env']):
+            # two callers interleaved line by line: ONE preemption at every line reaches the window between two
+            # adjacent assignments, which the 2-preemption search spends its budget before reaching
+            jobs.append((ri, 'dfs1', chk.seed, 700 if quick else 4000))
     seen = set()
     for ri, out in pool_map(_race, jobs, chunksize=1):
         for choices, tr in out:
